@@ -423,6 +423,62 @@ func flattenAnd(e Expr) []Expr {
 	return []Expr{e}
 }
 
+// invConjE: like invConj but keeps the expression and how to build an
+// evaluation context for it (after looking through pure functions).
+type invConjE struct {
+	text string
+	term string
+	expr Expr
+	ctx  func(st *State) *evalCtx
+}
+
+// splitClauseE is splitClause returning expressions and contexts as well.
+func (ex *Exec) splitClauseE(fr *Frame, st *State, res []Val, cl Clause) []invConjE {
+	mk := func(env map[string]TVal, pkgName string) func(*State) *evalCtx {
+		return func(s *State) *evalCtx {
+			c := ex.newCtx(fr, s, fr.entry, res)
+			if env != nil {
+				c.env = map[string]TVal{}
+				for k, v := range env {
+					c.env[k] = v
+				}
+				c.lets = map[string]Expr{}
+				if p := c.findPkg(pkgName); p != nil {
+					c.pkg = p
+				}
+			}
+			return c
+		}
+	}
+	call, ok := cl.Expr.(*ECall)
+	var pf *PureFunc
+	if ok {
+		pf = ex.db.pures[call.Fn]
+	}
+	if pf == nil || pf.Opaque || len(call.Args) != len(pf.Params) {
+		return []invConjE{{cl.Text, ex.evalBool(fr, st, fr.entry, res, cl.Expr), cl.Expr, mk(nil, "")}}
+	}
+	parts := flattenAnd(pf.Body)
+	if len(parts) == 1 {
+		return []invConjE{{cl.Text, ex.evalBool(fr, st, fr.entry, res, cl.Expr), cl.Expr, mk(nil, "")}}
+	}
+	outer := ex.newCtx(fr, st, fr.entry, res)
+	env := map[string]TVal{}
+	tc := ex.newCtx(fr, st, fr.entry, res)
+	if p := tc.findPkg(pf.Pkg); p != nil {
+		tc.pkg = p
+	}
+	for i, p := range pf.Params {
+		env[p.Name] = outer.coerce(outer.eval(call.Args[i]), tc.resolveType(p.Type))
+	}
+	var out []invConjE
+	for i, e := range parts {
+		c := mk(env, pf.Pkg)(st)
+		out = append(out, invConjE{fmt.Sprintf("%s#%d %s", call.Fn, i+1, exprText(e)), c.boolTerm(e), e, mk(env, pf.Pkg)})
+	}
+	return out
+}
+
 type invConj struct {
 	text string
 	term string
